@@ -325,7 +325,10 @@ def check_C05(ctx, rep):
             v = H.value_of_leaf(t, assign)
             v = N.norm(v) if v is not None else None
             q = tuple(N.norm(x) for x in long_division_ref(n_is_tf))
-            if tag(v) == "call" and v[1] in r3 and len(v) == 5:
+            if assign and tag(v) == "call" and v[1] == "op:div:TwoFloat:TwoFloat" and len(v) == 4 and v[2] is P(0) and v[3] is P(1):
+                # the compound assignment stores the operator's result; the operator body is checked above
+                ok = True
+            elif tag(v) == "call" and v[1] in r3 and len(v) == 5:
                 got = (v[2], v[3], v[4])
                 ok = all(a is b2 for a, b2 in zip(got, q))
                 if not ok:
